@@ -734,11 +734,11 @@ impl GlyphClosure for ContextFormat2<'_> {
                     } else if seq_idx == 0 {
                         Some(intersect_class(&classdef, &cur_glyphs, class_i))
                     } else {
-                        Some(intersect_class(
-                            &classdef,
-                            ctx.glyphs(),
-                            rule.input_sequence()[seq_idx as usize - 1].get(),
-                        ))
+                        // a record that points past the input sequence applies to nothing
+                        let Some(class) = rule.input_sequence().get(seq_idx as usize - 1) else {
+                            continue;
+                        };
+                        Some(intersect_class(&classdef, ctx.glyphs(), class.get()))
                     };
 
                     ctx.add_todo(lookup_id, active_glyphs);
